@@ -226,7 +226,22 @@ def F10():
         "exc=%s end=%s" % (rec["exception"], rec["end"])
 
 
-ALL = ["F1", "F2", "F3", "F4", "F5", "F6a", "F6b", "F7", "F8", "F9", "F10"]
+def F12():
+    """C05 / C09: BatchProcessing with min_resources_per_workflow = 0 'reserves' zero
+    machines when none is free (here: both machines still on ingest in the step the
+    workflow is first scheduled); the cluster counts a reservation that does not
+    exist, the partition limit is used up and the workflow never starts."""
+    wf = {"nodes": [{"id": 0, "comp": 20}, {"id": 1, "comp": 10}], "edges": [[0, 1, 0]]}
+    spec = base([ob("a", 0, 1, rate=1, ing=2, wf=wf)],
+                machines=[{"id": "m0", "flops": 10, "bw": 2}, {"id": "m1", "flops": 10, "bw": 2}],
+                max_ingest=2, planning="batch",
+                scheduling={"kind": "batch", "partitions": 1, "min": 0, "split": None})
+    rec = runsim.run_spec(spec, max_steps=200)
+    return rec["exception"] is None and not rec["nonterminated"], \
+        "exc=%s end=%s nonterminated=%s" % (rec["exception"], rec["end"], rec["nonterminated"])
+
+
+ALL = ["F1", "F2", "F3", "F4", "F5", "F6a", "F6b", "F7", "F8", "F9", "F10", "F12"]
 
 if __name__ == "__main__":
     if "--f9-child" in sys.argv:
